@@ -18,7 +18,7 @@ import lib
 
 PID = "C13"
 JAVA_OPTS = "-Xss512m -XX:TieredStopAtLevel=1 -XX:ParallelGCThreads=2 -XX:CICompilerCount=1"
-REQUIRED = ["events", "built", "refused", "valid_genesis", "invalid_genesis", "fn_eth1", "fn_eth1_unverified", "fn_kickstart",
+REQUIRED = ["events", "built", "refused", "valid_genesis", "invalid_genesis", "fn_eth1", "fn_eth1_unverified", "fn_kickstart", "fn_kickstart_sigs",
             "class_empty", "class_below_slots_per_epoch", "class_exactly_slots_per_epoch", "class_min_active_minus_one",
             "class_min_active_exact", "class_min_active_by_topup", "class_all_partial_no_active", "class_over_max",
             "class_bad_pop_skipped", "class_invalid_pubkey_skipped", "class_topups", "class_amount_edges", "class_eth1_creds",
